@@ -15,6 +15,7 @@ def runLine (line : String) : String :=
   match ts with
   | "fd" :: rest => runFD rest
   | "unify" :: rest => runUnify rest
+  | "unifyT" :: rest => runUnifyT rest
   | "prog" :: rest => runProg rest
   | "lt" :: rest => runLT rest
   | "surf" :: rest => runSurf rest
